@@ -356,6 +356,9 @@ def parse_operand(s):
         return ("const", s[6:].strip())
     if re.fullmatch(r"[A-Za-z_][A-Za-z0-9_:]*", s):
         return ("fnitem", s)
+    if s.startswith("<") and re.search(r"::[A-Za-z_][A-Za-z0-9_]*(::<.*>)?$", s) and not re.match(r"^_\d+", s):
+        # qualified path to a function item, e.g. <<D as Deserializer<'_>>::Error as de::Error>::custom::<T>
+        return ("fnitem", s)
     raise MirSyntax("operand %r" % s)
 
 
